@@ -479,7 +479,9 @@ func (c *FITToCSVConv) writeMesg(mesg proto.Message) {
 }
 
 func (c *FITToCSVConv) getFieldDescription(developerDataIndex, fieldDefinitionNumber uint8) *mesgdef.FieldDescription {
-	for _, fieldDesc := range c.fieldDescriptions {
+	// The most recent description wins: in a chained FIT file every sequence describes its developer fields anew.
+	for i := len(c.fieldDescriptions) - 1; i >= 0; i-- {
+		fieldDesc := c.fieldDescriptions[i]
 		if fieldDesc.DeveloperDataIndex == developerDataIndex &&
 			fieldDesc.FieldDefinitionNumber == fieldDefinitionNumber {
 			return fieldDesc
